@@ -1,1 +1,4 @@
+import MtblProps.C08
 import MtblProps.C16
+import MtblProps.C17
+import MtblProps.C19
